@@ -34,6 +34,7 @@ HERE = Path(__file__).resolve().parent
 
 K_D, K_E, K_N, K_A = 64.0, 64.0, 64.0, 4.0
 BORDERLINE = 16.0     # deviations up to BORDERLINE x the derived tolerance are counted as borderline, not as findings
+BORDERLINE_F64 = 1024.0  # float64 variants: the f32-vs-f64 discrepancy scaled by eps64/eps32 is a cruder estimate
 
 HALF_POOL = [0.5, -0.5, 1.5, -1.5, 2.5, -2.5, 3.5, -3.5, 0.0, 1.0, -1.0, 2.0, -2.0, 4.5, -4.5]
 MAG_POOL = [0.0, 1.0, -1.0, 1e-3, -1e-3, 1e-6, -1e-6, 20.0, -20.0, 100.0, -100.0, 1e4, -1e4, 0.25, -7.0,
@@ -318,8 +319,9 @@ def build_inputs(tp: dict, kind: str, seed: int, f64: bool, symval: int = 2):
             specs.append(jax.ShapeDtypeStruct(a.shape, spec_dt))
             xs.append(fill(a.shape, dt, a.astype(dt)))
     if tp.get("component") in POSITIVE and kind != "own":
-        xs = [(np.abs(x) + np.asarray(2.0 ** -10, dtype=x.dtype)).astype(x.dtype)
+        xs = [np.asarray(np.abs(x) + np.asarray(2.0 ** -10, dtype=x.dtype), dtype=x.dtype)
               if np.issubdtype(x.dtype, np.floating) else x for x in xs]
+    xs = [np.asarray(x) for x in xs]
     return specs, xs
 
 
@@ -447,7 +449,7 @@ def compare(ort_out, j_main, j_ref, f64: bool, j_pert=None, declared=None, unord
                 with np.errstate(all="ignore"):
                     excess = np.where(bad, np.abs(oo - ee) / np.maximum(tol, 1e-300), 0.0)
                     excess = np.where(np.isfinite(excess), excess, 1e300)
-                if float(excess.max()) <= BORDERLINE:
+                if float(excess.max()) <= (BORDERLINE_F64 if f64 else BORDERLINE):
                     # within BORDERLINE x the derived tolerance and finite on both sides: numerical noise of a
                     # different but equally valid algorithm cannot be excluded -> counted, not a finding
                     borderline = max(borderline, float(excess.max()))
@@ -630,7 +632,8 @@ def run_case(index: int, seed: int, kinds: list[str], symval: int = 2) -> dict:
         kinds = [k for k in kinds if k in BOUNDED_KINDS[comp]]
     if tp.get("context") in EXEMPT_CONTEXT:
         kinds = [k for k in kinds if k == "own"]
-    kinds = [k for k in kinds if (tp["testcase"], k) not in ORACLE_EXEMPT and (tp["testcase"], "*") not in ORACLE_EXEMPT]
+    base_name = tp["testcase"][:-4] if tp["testcase"].endswith("_f64") else tp["testcase"]
+    kinds = [k for k in kinds if (base_name, k) not in ORACLE_EXEMPT and (base_name, "*") not in ORACLE_EXEMPT]
     if f64:
         declared = (tp.get("rtol_f64", tp.get("rtol", 1e-7)), tp.get("atol_f64", tp.get("atol", 1e-7)))
     else:
